@@ -12,7 +12,7 @@ import (
 	"github.com/WuKongIM/WuKongIM/internal/verifsim/simkit"
 	ch "github.com/WuKongIM/WuKongIM/pkg/channel"
 	"github.com/WuKongIM/WuKongIM/pkg/channel/replication"
-	channelstore "github.com/WuKongIM/WuKongIM/pkg/channel/store"
+	"github.com/cockroachdb/pebble/v2/vfs"
 )
 
 func TestVerifSim(t *testing.T) {
@@ -102,6 +102,12 @@ func drawCfg(r *simkit.Run) cfg {
 	c.InstallBias = 1 + tp.Intn(3)
 	c.StaleBias = tp.Intn(3)
 	c.RecsPerCmdMax = 1 + tp.Intn(3)
+	// one run in five uses the real MessageDB (commit coordinator + Pebble) on a
+	// simulated disk so that a crash keeps only what was really made durable
+	if tp.Intn(5) == 4 {
+		c.StoreMode = 1
+		c.MemTable = []int{4 << 20, 64 << 10, 256 << 10}[tp.Intn(3)]
+	}
 	switch r.Property {
 	case "C03":
 		c.Retained = 1 + tp.Intn(3)
@@ -118,25 +124,19 @@ func runWorld(t *testing.T, r *simkit.Run) {
 	c := drawCfg(r)
 	r.Config = map[string]any{"N": c.N, "Q": c.Q, "channels": c.Channels, "ops": c.Ops, "nofaults": c.NoFaults,
 		"drop": c.FDrop, "resploss": c.FRespLoss, "dup": c.FDup, "hold": c.FHold, "partition": c.FPartition, "crash": c.FCrash, "sync": c.FSync,
-		"all_answer": c.FAllAnswer, "regime": c.Regime, "retained": c.Retained, "page": c.PageBytes, "batch": c.BatchItems, "xto_ms": c.ExchangeTO.Milliseconds()}
+		"all_answer": c.FAllAnswer, "regime": c.Regime, "store_mode": c.StoreMode, "memtable": c.MemTable, "retained": c.Retained, "page": c.PageBytes, "batch": c.BatchItems, "xto_ms": c.ExchangeTO.Milliseconds()}
 	simkit.Bubble(t, r, func() {
 		q := &qworld{r: r, w: simkit.NewWorld(r), cfg: c, nodes: map[ch.NodeID]*simNode{}, busy: map[string]*opResult{},
 			cut: map[[2]ch.NodeID]bool{}, lastCommitted: map[string]uint64{}, opsLeft: c.Ops, nextMsgID: 1000}
 		defer q.teardown()
 		for i := 1; i <= c.N; i++ {
-			n := &simNode{id: ch.NodeID(i), factory: channelstore.NewMemoryFactory()}
-			rd, err := replication.NewStoreAdapter(replication.StoreAdapterConfig{Factory: n.factory, MaxBatchItems: 256, MaxBatchBytes: 4 << 20})
-			if err != nil {
-				r.Infra("reader adapter: %v", err)
-				return
-			}
-			n.reader = rd
+			n := &simNode{id: ch.NodeID(i)}
+			q.nodes[n.id] = n
+			q.ids = append(q.ids, n.id)
 			if err := q.newNodeRuntime(n); err != nil {
 				r.Infra("runtime: %v", err)
 				return
 			}
-			q.nodes[n.id] = n
-			q.ids = append(q.ids, n.id)
 		}
 		for i := 0; i < c.Channels; i++ {
 			name := fmt.Sprintf("c%d", i)
@@ -147,7 +147,7 @@ func runWorld(t *testing.T, r *simkit.Run) {
 		s := &simkit.Scheduler{R: r, MaxSteps: 60 + c.Ops*40, Collect: q.collect, Invariant: q.invariant,
 			StepTime: func() time.Duration {
 				// things take time; occasionally the tape freezes the clock for a step
-				if r.Tape.Chance(1, 8) {
+				if c.StoreMode == 0 && r.Tape.Chance(1, 8) {
 					return 0
 				}
 				return 200 * time.Microsecond
@@ -207,6 +207,12 @@ func (q *qworld) teardown() {
 		q.drain(false)
 		if len(q.busy) > 0 {
 			time.Sleep(100 * time.Millisecond)
+		}
+	}
+	for _, id := range q.ids {
+		if n := q.nodes[id]; n != nil && n.mdb != nil {
+			_ = n.mdb.Close()
+			n.mdb = nil
 		}
 	}
 }
@@ -384,6 +390,16 @@ func (q *qworld) allReachableFrom(id ch.NodeID) bool {
 func (q *qworld) crash(id ch.NodeID) {
 	n := q.nodes[id]
 	q.r.Fault("crash")
+	// what survives is decided at the crash instant, before anything of the dead
+	// incarnation shuts down: 100 = process kill, 0 = power loss, else torn
+	pct := 100
+	var clone *vfs.MemFS
+	if q.cfg.StoreMode == 1 {
+		pct = []int{100, 0, 50, 20}[q.r.Tape.Weighted([]int{2, 3, 2, 1})]
+		clone = q.cloneDisk(n, pct, uint64(q.r.Tape.Intn(1<<30))+1)
+		q.r.Fault(fmt.Sprintf("crash_disk_unsynced_kept_%d", pct))
+	}
+	defer q.swapDisk(n, clone, pct)
 	n.up = false
 	for _, p := range q.w.Pending() {
 		info := p.Info.(parkInfo)
@@ -993,6 +1009,7 @@ func (q *qworld) finalPhase() {
 				continue
 			}
 			q.w.Release(ps[0], 0)
+			time.Sleep(200 * time.Microsecond)
 		}
 	}
 	settle(600)
